@@ -71,18 +71,18 @@ func (t *nameTable) num(full string) int {
 // ---------- generation
 
 type c14gen struct {
-	fork   bool // C16 try bodies: allow one fork command
-	bad    bool // failing commands may be an unknown command / an unparsable line instead of the fail probe
-	pad    bool // scripts with blank lines, whitespace-only lines, leading and trailing blanks
-	via    bool // top-level tasks may go through the pip:run command
-	deep   int  // nested submissions down to this depth (0: 2)
-	plain  bool // C16: no fork command, no late-nested-run shape, manager bound beforehand
+	fork  bool // C16 try bodies: allow one fork command
+	bad   bool // failing commands may be an unknown command / an unparsable line instead of the fail probe
+	pad   bool // scripts with blank lines, whitespace-only lines, leading and trailing blanks
+	via   bool // top-level tasks may go through the pip:run command
+	deep  int  // nested submissions down to this depth (0: 2)
+	plain bool // C16: no fork command, no late-nested-run shape, manager bound beforehand
 	// C16: prefix of the full task names of a try block (the namespace of the task the block runs in)
 	tryPrefix string
-	uid    int
-	rng    *RNG
-	budget int
-	names  *nameTable
+	uid       int
+	rng       *RNG
+	budget    int
+	names     *nameTable
 }
 
 func (g *c14gen) body(owner *gTask, depth int, mayFail bool) {
@@ -360,7 +360,7 @@ type c14obs struct {
 	Results  []bool          `json:"results"` // top-level submissions in order: accepted?
 	Names    []string        `json:"names"`
 	Errors   map[string]bool `json:"errors"`
-	Mgr      string          `json:"mgr"` // ok | err | hang | panic
+	Mgr      string          `json:"mgr"`                  // ok | err | hang | panic
 	EarlyW   string          `json:"early_wait,omitempty"` // "" (none) | returned | hang | panic: a second TasksManager.Wait begun while bodies are still held in their gates
 	MaxIn    int             `json:"max_inside"`
 	GateHang int             `json:"gate_hangs"`
@@ -931,5 +931,11 @@ func runC14(o *Out, rng *RNG, tier string, replay string) {
 	}
 	if o.Stats["graphs_with_overlapping_commands"] == 0 && only < 0 {
 		o.Fail("harness_overlap", "no graph had two probe commands executing at the same time", "no-overlap", nil)
+	}
+	// locks and wait lists together (the order "wait for the prerequisites, THEN take the locks" is what
+	// keeps a waiter from holding what its prerequisite needs): a few rounds of the runner-level probe
+	// of C15, two of them with the critical order forced by an outside holder
+	if replay == "" {
+		c15RunnerProbe(o, rng.Fork(), 6)
 	}
 }
